@@ -115,6 +115,16 @@ Definition after_cb_exp (p : packet) : yexp :=
   | _ => YNone
   end.
 
+(* what the processor may do when nothing is expected of it: the callback is not among it — it is
+   only ever invoked for the PUBLISH just received or the message just looked up *)
+Definition ack_none (e : event) : option yexp :=
+  match e with
+  | ERx (Publish d m id) => Some (YPub (Publish d m id))
+  | ERx (Pubrel id) => Some (YRel id)
+  | ECb _ _ => None
+  | _ => Some YNone
+  end.
+
 Definition ack_step (y : yexp) (e : event) : option yexp :=
   match e with
   | ENew _ => Some YInit
@@ -122,25 +132,23 @@ Definition ack_step (y : yexp) (e : event) : option yexp :=
     if proc_obs e then
       match y, e with
       | YInit, _ => Some YNone
-      | YNone, ERx (Publish d m id) =>
-        Some (match after_cb_exp (Publish d m id) with YNone => YNone | _ => YPub (Publish d m id) end)
-      | YNone, ERx (Pubrel id) => Some (YRel id)
-      | YNone, ECb _ Fail => Some YNone
-      | YNone, _ => Some YNone
+      | YNone, _ => ack_none e
       | YPub p, ECb m r =>
         match p with
         | Publish _ m' _ => if message_eqb m m' then Some (match r with Ok => after_cb_exp p | Fail => YNone end) else None
         | _ => None
         end
       | YPub p, _ =>
-        (* no callback configured: the step after it *)
+        (* no callback (configured, or due in this mode): the step after it *)
         match after_cb_exp p, e with
         | YAck id, ETx (Puback id') true _ => if id =? id' then Some YNone else None
+        | YAck _, _ => None
         | YSave q, ESave Incoming q' r =>
           if packet_eqb q q' then
             match r, get_id q with Ok, Some id => Some (YRec id) | Fail, _ => Some YNone | _, _ => None end
           else None
-        | _, _ => None
+        | YSave _, _ => None
+        | _, _ => ack_none e       (* QoS 0: nothing to acknowledge *)
         end
       | YAck id, ETx (Puback id') true _ => if id =? id' then Some YNone else None
       | YSave q, ESave Incoming q' r =>
